@@ -99,6 +99,9 @@ def _run_history(sp, prog, requested, others, call, A, e, n_calls, kind, spec, e
             exp = [(expected[n][k] if expected[n] is not None else R(0)) + upd[n][k] for k in range(len(g))]
             obs.append(Ob("grad_is_previous_plus_update", eq_all(g, exp), cex))
             expected[n] = list(g)
+            if had[n]:
+                # "add to an existing .grad instead of replacing it": the accumulator object the user / optimizer holds is the one that is updated
+                obs.append(Ob("existing_grad_updated_in_place", id(prog[n].grad._storage) == gid[n], cex))
             if not had[n]:
                 # freshly created: shares memory with no other tensor
                 st = _storages(prog, A)
